@@ -940,42 +940,125 @@ Proof.
   cbn [step] in E. eapply finish_nothing; eauto.
 Qed.
 
-Lemma failed_creation_cancels_calls s e c s' u :
-  reachable s -> wf_op s (OCreate e c) = true -> c_fail c <> 6 ->
-  step s (OCreate e c) = (s', u) -> o_rc u = 1 -> o_pend u = 0.
-Proof. intros R W H6 E Hrc. eapply create_nothing_behind; eauto. Qed.
-
 (* ---- partial deployment failure (c_fail = 6): the retried deployment *)
 Definition pd_spec : cspec :=
   mkSpec [0] 6 [mkRole RPlain true 0 false; mkRole RPlain false 0 false].
 
-(* the unchanged code: the tasks of attempts 1 and 2 are launched, in no roster, never KILLed *)
-Lemma retried_deployment_leaks :
-  wf_op st0 (OCreate 0 pd_spec) = true /\
-  let '(s', u) := step st0 (OCreate 0 pd_spec) in
-  o_rc u = 1 /\ mem_tid (0, 0) (o_launch u) = true /\ mem_tid (0, 0) (o_kills u) = false /\
-  existsb (fun t => tid_eqb (t_id t) (0, 0)) (s_roster s') = false /\
-  (* ... while those of the last attempt are in the roster, unowned, and the next cleanup KILLs them *)
-  map t_id (s_roster s') = [(0, 4); (0, 5)] /\ forallb (fun t => negb (is_locked t)) (s_roster s') = true /\
-  o_kills (snd (step s' OCleanup)) = [(0, 4); (0, 5)].
-Proof. vm_compute. repeat split; reflexivity. Qed.
+(* the source facts (gen/Gen_AcqRoster.v): the tasks of every deployment attempt reach the roster *)
+Lemma roster_attempts_all : roster_attempts = [0; 1; 2].
+Proof. vm_compute. reflexivity. Qed.
 
-Lemma failed_creation_leaves_nothing_refuted : ~ failed_creation_leaves_nothing.
+Lemma finish_nothing6 e c s s' u ad :
+  inv s -> assocN e (s_snaps s) = Some ad -> c_fail c = 6 ->
+  finish e c s = (s', u) -> o_rc u = 1 ->
+  (nothing_left e s' /\ launched_handled s' u) /\ o_pend u = 0.
 Proof.
-  intro H. destruct retried_deployment_leaks as [W L].
-  destruct (step st0 (OCreate 0 pd_spec)) as [s' u] eqn:E. destruct L as [Hrc [Hl [Hk [Hr _]]]].
-  destruct (H st0 0 pd_spec s' u (ex_intro _ [] (conj eq_refl eq_refl)) W E Hrc) as [_ Hh].
-  destruct (Hh (0, 0) (proj1 (mem_tid_In _ _) Hl)) as [X|[t [Ht [Eid _]]]].
-  - apply mem_tid_In in X. rewrite Hk in X. discriminate.
-  - rewrite <- not_true_iff_false in Hr. apply Hr. apply existsb_exists. exists t. split; [exact Ht|].
-    rewrite Eid. apply tid_eqb_refl.
+  intros I Ea H6. unfold finish. rewrite Ea. pose proof (assocN_In _ _ _ Ea) as Hp.
+  assert (Rfree : forall t, In t (s_roster s) -> fst (t_id t) <> e).
+  { intros t Ht. apply (inv_snap_r s I (e, ad) t Hp Ht). }
+  assert (Efree : forall y, In y (s_envs s) -> e_id y <> e).
+  { intros y Hy. apply (inv_snap_e s I (e, ad) y Hp Hy). }
+  set (s0 := mkSt (s_envs s) (s_roster s) (remove_snap e (s_snaps s))).
+  rewrite H6. cbn [N.leb N.compare andb].
+  replace (N.leb 1 6 && N.leb 6 3) with false by reflexivity.
+  destruct (existsb _ (c_dets c)).
+  { intros H _. injection H as <- <-. split; [|reflexivity]. split; [|intros id []].
+    repeat split; cbn [s0 s_envs s_roster]; auto.
+    - apply find_env_none_intro, Efree.
+    - intros t Ht. destruct (owner_is e t) eqn:Eo; [|reflexivity]. apply owner_is_true in Eo.
+      exfalso. apply (Rfree t Ht). eapply inv_owner; eauto. }
+  set (x0 := mkEnv e (c_dets c) ES_STANDBY (c_roles c) false 0).
+  replace (N.eqb 6 4) with false by reflexivity. replace (N.eqb 6 6) with true by reflexivity.
+  set (xe := set_estate ES_ERROR (leave_upd ES_STANDBY (leave_upd ES_STANDBY x0))).
+  set (trs := task_iroles (set_bound x0)). set (n := Nlen (c_roles c)).
+  set (last := flat_map _ roster_attempts).
+  intros H _.
+  assert (Hlast : forall t, In t last -> t_owner t = None /\ fst (t_id t) = e).
+  { unfold last. intros t Ht. apply in_flat_map in Ht. destruct Ht as [a [_ Ht]].
+    apply in_map_iff in Ht. destruct Ht as [ir [<- _]]. split; reflexivity. }
+  assert (Hnd : NoDup (map t_id last)).
+  { unfold last. apply att_nodup.
+    - rewrite roster_attempts_all. repeat constructor; cbn; intuition discriminate.
+    - unfold trs, task_iroles, iroles. apply nodup_filter_map. apply index_from_nodup.
+    - intros ir Hir. unfold trs, task_iroles, iroles in Hir. apply filter_In in Hir. destruct Hir as [Hir _].
+      apply index_from_ub in Hir. cbn [set_bound e_roles x0] in Hir. unfold n. lia. }
+  assert (Im : inv (mkSt (s_envs s0 ++ [xe]) (s_roster s0 ++ last) (s_snaps s0))).
+  { apply (inv_launch_unowned s e ad xe last I Hp eq_refl Hnd Hlast). }
+  assert (Ef : find_env (e_id xe) (s_envs (mkSt (s_envs s0 ++ [xe]) (s_roster s0 ++ last) (s_snaps s0))) = Some xe).
+  { cbn [s_envs s0]. apply find_env_app_new; auto. }
+  destruct (create_tail_nothing xe _ [] (map (att_id e n 0) trs ++ map (att_id e n 1) trs ++ map (att_id e n 2) trs) s' u Im Ef) as [A [[_ P0] [B _]]]; [cbn; discriminate|exact H|].
+  change (e_id xe) with e in *. split; [|exact P0]. split; [exact A|].
+  (* every launched task is one of [last], and those stay in the roster, unowned *)
+  assert (Keep : forall t, In t last -> In t (s_roster s')).
+  { intros t Ht. unfold create_tail in H.
+    set (td := teardown true (e_id xe) (mkSt (s_envs s0 ++ [xe]) (s_roster s0 ++ last) (s_snaps s0))) in H.
+    assert (K : In t (fst (kill_tasks (bound_tids xe) (s_roster (td_st td))))).
+    { apply kill_keeps_unlisted; [|reflexivity]. unfold td.
+      pose proof (teardown_succeeds true (e_id xe) _ xe Im Ef (ltac:(cbn; discriminate)) (or_introl eq_refl)) as Hok.
+      destruct (teardown_ok_shape true (e_id xe) _ Hok) as [x' [_ [Hst _]]]. cbv zeta in Hst. rewrite Hst. cbn [s_roster].
+      destruct (Hlast t Ht) as [Ho _].
+      apply release_keeps; [|unfold owner_is; rewrite Ho; reflexivity|left; exact Ho].
+      apply release_keeps; [|unfold owner_is; rewrite Ho; reflexivity|left; exact Ho].
+      cbn [s_roster s0]. apply in_or_app. right. exact Ht. }
+    destruct (kill_tasks (bound_tids xe) (s_roster (td_st td))) as [r' k] eqn:Ek.
+    injection H as <- _. unfold with_roster. cbn [s_roster]. exact K. }
+  intros id Hl. rewrite B in Hl. right.
+  assert (Hin : exists t, In t last /\ t_id t = id).
+  { unfold last. rewrite roster_attempts_all. cbn [flat_map]. rewrite app_nil_r.
+    apply in_app_or in Hl. destruct Hl as [Hl|Hl]; [|apply in_app_or in Hl; destruct Hl as [Hl|Hl]];
+      apply in_map_iff in Hl; destruct Hl as [ir [<- Hir]].
+    - exists (att_task e n 0 ir). split; [|reflexivity]. apply in_or_app. left. apply in_map, Hir.
+    - exists (att_task e n 1 ir). split; [|reflexivity]. apply in_or_app. right. apply in_or_app. left. apply in_map, Hir.
+    - exists (att_task e n 2 ir). split; [|reflexivity]. apply in_or_app. right. apply in_or_app. right. apply in_map, Hir. }
+  destruct Hin as [t [Ht Eid]]. exists t. split; [apply Keep, Ht|]. split; [exact Eid|apply Hlast, Ht].
 Qed.
 
-Lemma failed_creation_partial s e c s' u :
-  reachable s -> wf_op s (OCreate e c) = true -> c_fail c <> 6 ->
+Lemma killed_handled e c s' u : launched_killed e c u -> launched_handled s' u.
+Proof. intros H id Hl. left. apply H, Hl. Qed.
+
+Lemma create_nothing_full s e c s' u :
+  reachable s -> wf_op s (OCreate e c) = true ->
   step s (OCreate e c) = (s', u) -> o_rc u = 1 ->
-  nothing_left e s' /\ launched_killed e c u.
-Proof. intros R W H6 E Hrc. eapply create_nothing_behind; eauto. Qed.
+  (nothing_left e s' /\ launched_handled s' u) /\ o_pend u = 0.
+Proof.
+  intros R W E Hrc. destruct (N.eq_dec (c_fail c) 6) as [H6|H6].
+  2:{ destruct (create_nothing_behind s e c s' u R W H6 E Hrc) as [[A B] P0].
+      split; [|exact P0]. split; [exact A|eapply killed_handled; eauto]. }
+  pose proof (reachable_inv s R) as I.
+  cbn [wf_op] in W. apply andb_true_iff in W. destruct W as [W _]. apply negb_true_iff in W.
+  cbn [step] in E. rewrite H6 in E. replace (N.eqb 6 1) with false in E by reflexivity.
+  destruct (snap e false s) as [s1 o1] eqn:Es.
+  destruct (finish e c s1) as [s2 o2] eqn:Ef. injection E as <- <-.
+  destruct (snap_spec e s s1 o1 I W Es) as [I1 _].
+  assert (Ea : assocN e (s_snaps s1) = Some (active_dets (s_envs s))).
+  { unfold snap in Es. destruct (cleanup (s_roster s)). injection Es as <- _. cbn [s_snaps assocN].
+    rewrite N.eqb_refl. reflexivity. }
+  cbn [out_seq o_rc] in Hrc.
+  destruct (finish_nothing6 e c s1 s2 o2 _ I1 Ea H6 Ef Hrc) as [[A B] P0]. split; [|exact P0]. split; [exact A|].
+  intros id Hl. cbn [out_seq o_launch o_kills] in *.
+  assert (Hl2 : In id (o_launch o2)).
+  { apply in_app_or in Hl. destruct Hl as [Hl|Hl]; [|exact Hl].
+    unfold snap in Es. destruct (cleanup (s_roster s)). injection Es as _ <-. contradiction. }
+  destruct (B id Hl2) as [X|X]; [left; apply in_or_app; right; exact X|right; exact X].
+Qed.
+
+Lemma failed_creation_leaves_nothing_holds : failed_creation_leaves_nothing.
+Proof. intros s e c s' u R W E Hrc. eapply create_nothing_full; eauto. Qed.
+
+Lemma failed_creation_cancels_calls s e c s' u :
+  reachable s -> wf_op s (OCreate e c) = true ->
+  step s (OCreate e c) = (s', u) -> o_rc u = 1 -> o_pend u = 0.
+Proof. intros R W E Hrc. eapply create_nothing_full; eauto. Qed.
+
+(* regression example: the retried deployment of the former refutation *)
+Lemma retried_deployment_kept :
+  wf_op st0 (OCreate 0 pd_spec) = true /\
+  let '(s', u) := step st0 (OCreate 0 pd_spec) in
+  o_rc u = 1 /\ length (o_launch u) = 6%nat /\ o_kills u = [] /\
+  map t_id (s_roster s') = [(0, 0); (0, 1); (0, 2); (0, 3); (0, 4); (0, 5)] /\
+  forallb (fun t => negb (is_locked t)) (s_roster s') = true /\
+  o_kills (snd (step s' OCleanup)) = [(0, 0); (0, 1); (0, 2); (0, 3); (0, 4); (0, 5)].
+Proof. vm_compute. repeat split; reflexivity. Qed.
 
 (* "tasks that never became owned stay unowned and fall to the next cleanup" *)
 Lemma unowned_falls_to_cleanup s t :
